@@ -16,6 +16,7 @@ from aiokafka.record.memory_records import _MemoryRecordsPy
 from aiokafka.record.util import decode_varint_py
 
 from specs import refcodec as R
+from . import cext as CX
 from .common import patched
 
 CLEAN = (CorruptRecordException, UnsupportedCodecError, ValueError, IndexError, AssertionError, struct.error,
@@ -254,6 +255,62 @@ def m1_mutations(src, which):
     if src.twin and kind == 0:
         ok = False
     src.check(ok, f"decoder raised an internal error instead of an ordinary exception: {outcome}", buffer=which, mutation=desc)
+    _compiled_outcome(src, bytes(data), which, desc)
+
+
+def _compiled_outcome(src, data, which, desc):
+    """witness replay against the compiled decoders (watchdog subprocess): refutes, never confirms;
+    an out-of-bounds read that happens to return garbage is invisible to it"""
+    if not CX.available():
+        return
+    r = CX.decode(data, timeout=8.0)
+    src.check("hang" not in r, f"compiled decoder does not terminate ({which}: {desc})", buffer=which, mutation=desc)
+    src.check("crash" not in r, f"compiled decoder crashed the interpreter ({which}: {desc}): exit {r.get('crash')}", buffer=which, mutation=desc)
+    if "exc" in r:
+        src.check(r["exc"] not in ("SystemError", "MemoryError", "RecursionError", "RuntimeError"),
+                  f"compiled decoder raised {r['exc']} instead of an ordinary exception ({which}: {desc})",
+                  buffer=which, mutation=desc, detail=r.get("msg"))
+
+
+def m2_hostile_inner_lengths(src, magic, ninner):
+    """a compressed wrapper with a valid outer checksum whose decompressed inner messages carry
+    boundary values in their length fields"""
+    inner = bytearray(b"".join(R.encode_legacy_message(magic, i, 5, None, b"v%d" % i) for i in range(ninner)))
+    one = len(inner) // ninner
+    vals = []
+    for i in range(ninner):
+        k = src.choice(f"len{i}", len(BOUNDARY32) + 1)
+        if k < len(BOUNDARY32):
+            struct.pack_into(">i", inner, i * one + 8, BOUNDARY32[k])
+            vals.append(BOUNDARY32[k])
+        else:
+            vals.append("valid")
+    cut = src.choice("truncate_inner", 3)
+    if cut:
+        inner = inner[:len(inner) - [0, 3, 9][cut]]
+    data = R.encode_legacy_message(magic, ninner - 1, 5, None, R.gz(bytes(inner)), attrs=1)
+    desc = f"inner lengths {vals}, inner set truncated by {[0, 3, 9][cut]}"
+    try:
+        res = _decode_all(data)
+        outcome = "runaway" if res == "runaway" else "ok"
+    except (MemoryError, SystemError, RecursionError) as e:
+        outcome = "internal " + type(e).__name__
+    except Exception as e:  # noqa: BLE001
+        outcome = "raises " + type(e).__name__
+    src.note({"mutation": desc, "outcome": outcome})
+    ok = outcome not in ("runaway",) and not outcome.startswith("internal")
+    if src.twin:
+        ok = not ok
+    src.check(ok, f"pure-Python decoder: {outcome} on a wrapper with hostile inner lengths ({desc})", mutation=desc)
+    _compiled_outcome(src, data, f"v{magic} wrapper", desc)
+
+
+def prepare(tier):
+    return CX.prepare()
+
+
+def cleanup():
+    CX.cleanup()
 
 
 def harnesses(tier):
@@ -278,6 +335,13 @@ def harnesses(tier):
                               symbolic_vars="the int32 length field of every inner message (all 2^32 values each)",
                               bounds={"inner_messages": k}, stubs=["gzip_decode returns the symbolic inner message set", "struct/memoryview shims"],
                               max_seconds=300))
+    for m in (0, 1):
+        hs.append(Harness(name=f"M2_hostile_inner_lengths_v{m}", fn=m2_hostile_inner_lengths, params={"magic": m, "ninner": 2},
+                          functions=[_LegacyRecordBatchPy._read_all_headers, _LegacyRecordBatchPy.__iter__], shape="U",
+                          symbolic_vars="finite-domain choices: boundary value (-2^31, -13, -12, -2, -1, 0, 1, 2^31-1, valid) in the length field of each inner message; inner set truncated by 0/3/9 bytes",
+                          bounds={"inner_messages": 2},
+                          note="concrete; both the pure-Python decoder and (witness replay) the compiled decoder built from the current .pyx",
+                          max_seconds=300, twin_max_paths=30))
     for which in (["v2", "v1gz", "mixed"] if q else list(BUFFERS)):
         hs.append(Harness(name=f"M1_mutations_{which}", fn=m1_mutations, params={"which": which},
                           functions=[_MemoryRecordsPy._cache_next, _MemoryRecordsPy.next_batch, _DefaultRecordBatchPy._read_msg,
